@@ -517,17 +517,14 @@ Proof.
   destruct (spec_run (wc_args c) (truth_after (wc_init c) (wc_pre c)) (wc_hist c)) as [x t].
   unfold outcome in Hf. injection Hf as Hx Htm. rewrite Hx, Htm in Hm.
   rewrite Hd, Hl, Ho, Hle. cbn [N.eqb andb].
+  assert (Hend : match o_exit (wc_obs c) with XPending => true | _ => leak_eqb (0, 0, 0, 0) (0, 0, 0, 0) end = true)
+    by (destruct (o_exit (wc_obs c)); reflexivity).
+  rewrite Hend, !andb_true_r. apply orb_true_iff. left.
   destruct x as [r|k| |].
-  - rewrite Hled in Hm by (rewrite Hx; discriminate). change (leak_of lg_zero) with (0, 0, 0, 0) in Hm.
-    rewrite Hm. reflexivity.
-  - rewrite Hled in Hm by (rewrite Hx; discriminate). change (leak_of lg_zero) with (0, 0, 0, 0) in Hm.
-    rewrite Hm. reflexivity.
-  - rewrite Hled in Hm by (rewrite Hx; discriminate). change (leak_of lg_zero) with (0, 0, 0, 0) in Hm.
-    rewrite Hm. reflexivity.
-  - change (outcome_matches (wc_obs c) XPending t (Some (0, 0, 0, 0)))
-      with (outcome_matches (wc_obs c) XPending t (Some (leak_of (r_ledger (run all_off (wc_legacy c) (wc_args c) lg_zero
-                                                       (wc_init c) (wc_pre c) (wc_hist c)))))).
-    rewrite Hm. reflexivity.
+  - rewrite Hled in Hm by (rewrite Hx; discriminate). exact Hm.
+  - rewrite Hled in Hm by (rewrite Hx; discriminate). exact Hm.
+  - rewrite Hled in Hm by (rewrite Hx; discriminate). exact Hm.
+  - exact Hm.
 Qed.
 
 (* ================================================================================================ *)
